@@ -422,6 +422,9 @@ OPTION_MAP = {"std::option::Option::map", "core::option::Option::map"}
 OPTION_OK_OR = {"std::option::Option::ok_or", "core::option::Option::ok_or",
                 "std::option::Option::ok_or_else", "core::option::Option::ok_or_else"}
 RESULT_OK = {"std::result::Result::ok", "core::result::Result::ok"}
+OPTION_UNWRAP_OR = {"std::option::Option::unwrap_or", "core::option::Option::unwrap_or"}
+OPTION_VIEW = {"std::option::Option::as_deref", "core::option::Option::as_deref", "std::option::Option::as_ref", "core::option::Option::as_ref",
+               "std::option::Option::as_deref_mut", "std::option::Option::as_mut", "std::option::Option::copied", "std::option::Option::cloned"}
 AND_THEN = {"std::result::Result::and_then", "core::result::Result::and_then",
             "std::option::Option::and_then", "core::option::Option::and_then"}
 
@@ -585,7 +588,7 @@ class Interp:
         elif k == "ref":
             out = ("ref", s(e[1]), e[2])
         elif k == "call":
-            out = ("call", e[1], e[2], [s(a) for a in e[3]])
+            out = self._option_default(("call", e[1], e[2], [s(a) for a in e[3]]))
         elif k == "agg":
             out = ("agg", e[1], e[2], [s(a) for a in e[3]], e[4])
         elif k in ("tuple", "array"):
@@ -616,6 +619,53 @@ class Interp:
             out = e
         memo[key] = out
         return out
+
+    def _option_default(self, call):
+        """`opt.unwrap_or(d)` where opt's variants are known on every incoming path (`None` initially, `Some(x)` after
+        an iteration): the value is d on the None paths and the payload on the Some paths."""
+        c = call[2]
+        if c is None or _n(c) not in OPTION_UNWRAP_OR or len(call[3]) != 2:
+            return call
+        x = call[3][0]
+
+        def strip(v):
+            while True:
+                if v[0] in ("ref", "deref"):
+                    v = v[1]
+                elif v[0] == "mutlocal":
+                    v = v[2]
+                elif v[0] == "call" and v[2] is not None and _n(v[2]) in OPTION_VIEW and v[3]:
+                    v = v[3][0]
+                else:
+                    return v
+
+        def variants(v, depth=0):
+            v = strip(v)
+            if depth > 6:
+                return None
+            if v[0] == "agg" and v[2] in ("None", "Some") and v[1].endswith("option::Option"):
+                return [(v[2], v[3][0] if v[3] else None)]
+            if v[0] == "phi":
+                out = []
+                for m in v[1]:
+                    r = variants(m, depth + 1)
+                    if r is None:
+                        return None
+                    out += r
+                return out
+            return None
+
+        vs = variants(x)
+        if not vs:
+            return call
+        members = []
+        for name, payload in vs:
+            members.append(call[3][1] if name == "None" else payload)
+        uniq = []
+        for m in members:
+            if all(show(m, 0, 80) != show(u, 0, 80) for u in uniq):
+                uniq.append(m)
+        return uniq[0] if len(uniq) == 1 else ("phi", uniq)
 
     def uconst(self, e, depth=0):
         """A reference to a constant item: replaced by the value its (CTFE) body builds — a free / inherent const,
